@@ -394,7 +394,20 @@ def rule_protocol(ctx: Ctx) -> None:
     ps = prog.func(SIM, "Simulation._pause_simulation")
     w = [norm_stmt(s) for s in walk_stmts(ps.node.body) if isinstance(s, ast.Assign) and (path_of(s.targets[0]) or "").startswith("self.")]
     ctx.ob("C04-3", "G2", ps, None, w == ["self._is_paused = True"], f"pausing only marks the run paused (writes: {w})")
-    ctx.floor("C04-3", 10)
+    # every armed breakpoint is evaluated after each delivery (no early exit), and each triggered one-shot is removed
+    cb = prog.func(CTL, "SimulationControl._check_breakpoints")
+    loops = [s_ for s_ in walk_stmts(cb.node.body) if isinstance(s_, ast.For) and "self._breakpoints" in unparse(s_.iter)]
+    ok = len(loops) == 1 and not any(isinstance(x, (ast.Return, ast.Break)) for x in walk_stmts(loops[0].body))
+    calls = [c for c in calls_in(loops[0]) if isinstance(c.func, ast.Attribute) and c.func.attr == "should_break"] if loops else []
+    ok = ok and len(calls) == 1
+    rm = [s_ for s_ in walk_stmts(cb.node.body) if isinstance(s_, ast.For) and s_ not in loops and any(isinstance(b, ast.Delete) and "self._breakpoints" in unparse(b) for b in s_.body)]
+    coll = [c for c in calls_in(loops[0]) if isinstance(c.func, ast.Attribute) and c.func.attr == "append"] if loops else []
+    okr = len(rm) == 1 and len(coll) == 1 and path_of(rm[0].iter) == path_of(coll[0].func.value) and "one_shot" in "".join(unparse(x) for x in walk_stmts(loops[0].body) if isinstance(x, ast.If))
+    ctx.ob("C04-3", "G2", cb, loops[0] if loops else None, ok and okr,
+           "after each delivery every armed breakpoint is evaluated (no early return from the loop) and every triggered one-shot breakpoint is removed — a breakpoint pauses right after the first delivery that satisfies it, exactly once")
+    rets = [s_ for s_ in walk_stmts(cb.node.body) if isinstance(s_, ast.Return) and s_.value is not None and not isinstance(s_.value, ast.Constant)]
+    ctx.ob("C04-3", "G2", cb, rets[-1] if rets else None, len(rets) == 1 and path_of(rets[0].value) == "triggered", "the verdict is whether any breakpoint triggered")
+    ctx.floor("C04-3", 12)
 
 
 def rule_reset(ctx: Ctx) -> None:
@@ -432,14 +445,47 @@ def rule_reset(ctx: Ctx) -> None:
     hp = [s for s in walk_stmts(reset.node.body) if isinstance(s, ast.Assign) and path_of(s.targets[0]) == "self._sim._event_heap"]
     cu = [c for c in calls_in(reset.node) if path_of(c.func) == "self._sim._clock.update" and [path_of(a) for a in c.args] == ["self._sim._start_time"]]
     ctx.ob("C04-4", "G2", reset, "fresh heap + clock rewound", len(hp) == 1 and len(cu) == 1, "reset() installs an empty heap and rewinds the shared clock to the start time")
-    ctx.floor("C04-4", 6)
+    # pre-run event specs are snapshots: what is remembered for replay must not alias objects the run mutates
+    sv = prog.func(SIM, "Simulation._save_event_specs")
+    apps = [c for c in calls_in(sv.node) if path_of(c.func) == "self._pre_run_event_specs.append"]
+    ok = False
+    if len(apps) == 1 and isinstance(apps[0].args[0], ast.Tuple):
+        elts = apps[0].args[0].elts
+        metas = [e for e in elts if "meta" in unparse(e)]
+        ok = len(metas) == 1 and isinstance(metas[0], ast.Call) and (path_of(metas[0].func) in ("dict", "copy.copy", "copy.deepcopy") or (isinstance(metas[0].func, ast.Attribute) and metas[0].func.attr == "copy"))
+    ctx.ob("C04-4", "G7", sv, apps[0] if apps else None, ok, "the metadata remembered for replay is a copy taken at schedule time (handlers mutating an event's metadata during the run must not change what reset() replays)")
+    rp = prog.func(SIM, "Simulation._replay_pre_run_events")
+    mk = [c for c in calls_in(rp.node) if path_of(c.func) == "Event"]
+    ctxs = [s_ for s_ in walk_stmts(rp.node.body) if isinstance(s_, ast.Assign) and path_of(s_.targets[0]) == "ctx"]
+    ok = len(mk) == 1 and len(ctxs) == 1 and "dict(meta)" in unparse(ctxs[0].value)
+    ctx.ob("C04-4", "G7", rp, mk[0] if mk else None, ok, "each replay builds a fresh Event with its own copy of the remembered metadata (a second reset replays the same thing)")
+    ctx.floor("C04-4", 8)
+
+
+def rule_resume_tiebreak(ctx: Ctx) -> None:
+    """C04-5: re-entering run() (pause/step/resume) keeps one creation-order domain — shared with C01-8."""
+    from .c01 import _counter_continues
+
+    prog = ctx.prog
+    n = 0
+    for fn in prog.all_functions("happysimulator/core/"):
+        for c in calls_in(fn.node):
+            if isinstance(c.func, ast.Attribute) and c.func.attr == "set" and path_of(c.func.value) == "_active_counter_var" and c.args \
+                    and not (isinstance(c.args[0], ast.Constant) and c.args[0].value is None):
+                ok, why = _counter_continues(ctx, fn, c)
+                n += 1
+                ctx.ob("C04-5", "G7", fn, c, ok, "every (re-)entry into the run context continues the tie-break sequence after all indices issued so far, so a paused-and-resumed "
+                       "run orders same-instant events like an uninterrupted one — " + why)
+    need(n >= 1, "C04-5: no counter install site")
+    ctx.floor("C04-5", 1)
 
 
 def run(ctx: Ctx) -> None:
-    rule_loop_agreement(ctx)
-    rule_observer_purity(ctx)
-    rule_protocol(ctx)
-    rule_reset(ctx)
+    ctx.guarded(rule_resume_tiebreak)
+    ctx.guarded(rule_loop_agreement)
+    ctx.guarded(rule_observer_purity)
+    ctx.guarded(rule_protocol)
+    ctx.guarded(rule_reset)
 
 
 MUTANTS = [
